@@ -15,9 +15,9 @@ func init() {
 	Register(&PropDef{
 		ID: "C09", Title: "MAC key disclosure: only retired keys, and all used retired keys",
 		Config: c09Config, Run: c09Run, MaxSteps: 140,
-		Rule: "runs = PRNG-generated interleavings on reliable links (ping-pong, bursts, one-directional streams, refresh AKE while encrypted); the shadow reference knows every DH key of every session, so for every 20-byte key in an 'old MAC keys' field it decides which key pair it belongs to and whether the discloser would still accept that pair at that moment; after a flush every receiving MAC key that verified a message and whose pair is retired must have been disclosed; " +
+		Rule: "runs = PRNG-generated interleavings on reliable links (ping-pong, bursts, one-directional streams, refresh AKE while encrypted); the shadow reference knows every DH key of every session, so for every 20-byte key in an 'old MAC keys' field it decides which key pair it belongs to and whether the discloser would still accept that pair at that moment; after a flush every receiving MAC key that verified a message and whose pair is retired must have been disclosed; independently of the shadow, every disclosed key is used at once to forge data messages to the discloser for all key id pairs around those in use - none may be accepted; in a quarter of the runs a party's randomness source fails at PRNG-chosen reads (a key rotation half made) and the forgery probe alone decides; " +
 			"non-trivial = at least 4 keys were disclosed and both sides retired a generation; distinct = distinct step sequences",
-		Assume: []string{"disclosure at the very end of a session (End) is not demanded by the statement and not checked", "retired = the discloser's acceptance window (own ids our-1..our, peer ids their-1..their of the running session) no longer contains the pair"},
+		Assume: []string{"disclosure at the very end of a session (End) is not demanded by the statement and not checked", "a party that is told by the peer's disconnect that the session is over forgets its keys at once (specification); the keys of that session are not demanded from it; after its OWN End followed by a new session on the same conversation they are", "retired = the discloser's acceptance window (own ids our-1..our, peer ids their-1..their of the running session) no longer contains the pair"},
 	})
 }
 
@@ -28,6 +28,13 @@ func c09Config(rc *RunCtx) {
 	rc.Cfg["starter"] = r.Intn(2)
 	rc.Cfg["damage"] = r.Intn(2)
 	rc.Cfg["lying"] = r.Intn(4) / 3 // the peer is the reference implementation and sometimes announces the degenerate next DH key 1
+	rc.Cfg["randfault"] = 0
+	if rc.Cfg["lying"] == 0 && r.Chance(1, 4) {
+		// the randomness source of a party fails at PRNG-chosen reads (key rotation draws a new
+		// DH key); the shadow cannot follow a half-made rotation, so these runs are judged by
+		// the forgery probe alone
+		rc.Cfg["randfault"] = 1
+	}
 	pol := polFor(rc.Cfg["version"])
 	rc.Parties = []PartyCfg{{KeyIdx: 0, Pol: pol, Peer: 1}, {KeyIdx: 1, Pol: pol, Peer: 0}}
 }
@@ -130,6 +137,83 @@ func c09Run(rc *RunCtx) *Violation {
 			}
 		}
 	}
+	// ---- forgery probe: the operational reading of "would no longer accept any message
+	// authenticated with that key". Whoever reads a disclosed key K off the wire forges data
+	// messages to the discloser, authenticated with K, for every key id pair around the ones in
+	// use (fresh counter, arbitrary ciphertext). None may be accepted. A rejected forgery leaves
+	// the discloser as it was (C06), so the run goes on. Not applied with the lying peer, whose
+	// degenerate DH values make several generations share one MAC key.
+	randfault := rc.Cfg["randfault"] == 1 && !lying
+	if randfault {
+		o.Off[0], o.Off[1] = true, true
+	}
+	type c09Probe struct {
+		p *Party
+		d *refotr.Data
+	}
+	var pending []c09Probe
+	probes, forged := 0, 0
+	// sessions a party left because the PEER ended them: the specification has the receiver of a
+	// disconnect forget its keys on the spot, there is no later message of that session to
+	// disclose anything in; not demanded (like the keys still live at the very end of a run)
+	endedByPeer := [2]map[int]bool{{}, {}}
+	w.Observers = append(w.Observers, func(p *Party, r *CallResult) {
+		if r.Kind == "recv" && r.HasEvent("sec", "GoneInsecure") && p.Idx < 2 && p.Idx < len(o.Sh) && o.Sh[p.Idx] != nil && o.Sh[p.Idx].Peer != nil {
+			endedByPeer[p.Idx][len(o.Sh[p.Idx].Sess)-1] = true
+			// the reference keeps its record of used keys across the end of a session (it would
+			// disclose them in a later one); for a session ended by the peer that is not demanded
+			o.Sh[p.Idx].snapshotKeys()
+			o.Sh[p.Idx].Peer.UsedRecvMAC, o.Sh[p.Idx].Peer.PendingOldMAC = nil, nil
+			for _, c := range o.Sh[p.Idx].Sess {
+				c.Must = nil // whatever was still waiting for a data message of ours to travel in
+			}
+		}
+		if lying || p.Ref != nil {
+			return
+		}
+		for _, out := range r.Out {
+			if !dataTyped(out) {
+				continue
+			}
+			if d, _, ok := parseDataLenient(out); ok && len(d.OldMACKeys) >= 20 {
+				pending = append(pending, c09Probe{p, d})
+			}
+		}
+	})
+	runProbes := func() *Violation {
+		for len(pending) > 0 {
+			pr := pending[0]
+			pending = pending[1:]
+			p, m := pr.p, pr.d
+			if !p.Conv.IsEncrypted() {
+				continue
+			}
+			probes++
+			for i := 0; i+20 <= len(m.OldMACKeys); i += 20 {
+				k := m.OldMACKeys[i : i+20]
+				for ds := -1; ds <= 1; ds++ {
+					for dr := -1; dr <= 1; dr++ {
+						sid, rid := int64(m.RecipientKeyID)+int64(ds), int64(m.SenderKeyID)+int64(dr)
+						if sid < 1 || rid < 1 {
+							continue
+						}
+						f := &refotr.Data{Header: m.Header, Flags: 0, SenderKeyID: uint32(sid), RecipientKeyID: uint32(rid), NextDH: big.NewInt(0x10001)}
+						f.Header.SenderTag, f.Header.ReceiverTag = m.Header.ReceiverTag, m.Header.SenderTag
+						f.Ctr = [8]byte{0xff, 0xff, 0xff, 0xf0, 0, 0, 0, byte(forged)}
+						f.Enc = []byte("forged with a disclosed key")
+						f.MAC = refotr.DataMAC(k, f.AuthBytes())
+						forged++
+						r := p.Receive(refotr.Armor(f.Raw()))
+						if r.Err == "" && r.Panic == "" && !r.HasEvent("msg", "ReceivedMessageUnreadable") && !r.HasEvent("msg", "ReceivedMessageMalformed") {
+							return rc.Viol("disclosed.live", fmt.Sprintf("%s accepted a data message forged with the MAC key %x that it had just disclosed itself (call #%d, key ids sender %d / recipient %d): the key was still live when it was published", p.Name, k, r.Seq, sid, rid),
+								map[string]string{"kind": "forgery-accepted", "randfault": fmt.Sprint(randfault)})
+						}
+					}
+				}
+			}
+		}
+		return nil
+	}
 	if !w.Handshake(rc.Cfg["starter"]) {
 		return rc.Viol("setup.handshake", "AKE did not complete", nil)
 	}
@@ -142,14 +226,20 @@ func c09Run(rc *RunCtx) *Violation {
 			burst--
 			return Step{K: "send", A: burstWho, B: 1}, true
 		}
-		// sendA sendB delAB delBA tick burst refresh damage
+		// sendA sendB delAB delBA tick burst refresh damage endrestart
 		wt := [][]int{{10, 10, 14, 14, 1, 2, 1, 2}, {8, 8, 30, 30, 1, 0, 1, 2}, {20, 1, 12, 12, 1, 3, 0, 2}, {10, 10, 8, 8, 1, 8, 1, 2}, {8, 8, 14, 14, 2, 1, 5, 2}}[rc.Cfg["pattern"]%5]
-		wt = append([]int{}, wt...)
+		wt = append(append([]int{}, wt...), 0)
+		if fly[0]+fly[1] == 0 && !lying && !randfault && len(rc.Steps) > 6 {
+			wt[8] = 1 // a party ends the session; the same two conversations then start a new one
+		}
 		if fly[0]+fly[1] == 0 || rc.Cfg["damage"] == 0 {
 			wt[7] = 0
 		}
 		if lying && r.Chance(1, 8) {
 			return Step{K: "lie"}, true
+		}
+		if randfault && r.Chance(1, 10) {
+			return Step{K: "randfault", A: r.Intn(2), B: r.Intn(3), C: 1 + r.Intn(4)}, true
 		}
 		if fly[0] == 0 {
 			wt[2] = 0
@@ -179,6 +269,8 @@ func c09Run(rc *RunCtx) *Violation {
 			return Step{K: "send", A: burstWho, B: 1}, true
 		case 6:
 			return Step{K: "refresh", A: r.Intn(2)}, true
+		case 8:
+			return Step{K: "endrestart", A: r.Intn(2), B: r.Intn(2)}, true
 		default:
 			a := r.Intn(2)
 			if fly[a] == 0 {
@@ -197,6 +289,13 @@ func c09Run(rc *RunCtx) *Violation {
 		case "deliver":
 			s.C = 0
 			w.Exec(s)
+		case "randfault":
+			// the B-th coming multi-byte read of this party's randomness source fails
+			if randfault {
+				p := w.P[s.A%2]
+				p.Rand.FailAt, p.Rand.Mode = p.Rand.reads+s.B%3, 1+s.C%4
+				w.Fault("rand-read-fails")
+			}
 		case "lie":
 			// the (authenticated) peer replaces its newest DH key by the degenerate pair (0, g^0 = 1);
 			// it stays consistent with itself, so traffic goes on
@@ -216,6 +315,28 @@ func c09Run(rc *RunCtx) *Violation {
 			w.Arch = append(w.Arch, y)
 			w.Fault("damaged-copy")
 			w.Deliver(y)
+		case "endrestart":
+			if w.TotalInFlight() > 0 || lying || randfault {
+				continue
+			}
+			p := w.P[s.A%2]
+			q := w.P[1-s.A%2]
+			if !p.Conv.IsEncrypted() {
+				continue
+			}
+			r := p.End()
+			w.Enqueue(p, r)
+			w.Drain(2000)
+			if s.B%2 == 1 {
+				r = q.End() // the peer's user closes the finished conversation too
+				w.Enqueue(q, r)
+				w.Drain(2000)
+			}
+			w.Tick(tickDur[3])
+			w.Put(p.Idx, p.Cfg.Peer, p.Query(), true, -1, -1, "query")
+			w.Drain(2000)
+			w.Fault("end-and-new-session")
+			refreshes++
 		case "refresh":
 			if w.TotalInFlight() > 0 {
 				continue
@@ -232,9 +353,28 @@ func c09Run(rc *RunCtx) *Violation {
 		if viol != nil {
 			return viol
 		}
+		if v := runProbes(); v != nil {
+			return v
+		}
+		if randfault {
+			continue
+		}
 		if v := divViolationSoft(rc, o); v != nil {
 			return v
 		}
+	}
+	if randfault {
+		w.Drain(5000)
+		if v := runProbes(); v != nil {
+			return v
+		}
+		rc.Stats.Nontrivial = probes >= 2
+		rc.Stats.Sig = fmt.Sprintf("v%d p%d rf %s", rc.Cfg["version"], rc.Cfg["pattern"], kinds)
+		rc.ProbeN("forgery_probes", probes)
+		rc.ProbeN("forged_messages", forged)
+		rc.ProbeN("rand_faults_fired", w.P[0].Rand.Fired+w.P[1].Rand.Fired)
+		rc.Probe("randfault_runs")
+		return nil
 	}
 	// flush: exchange further messages so that used pairs retire, then one last send each
 	w.Drain(5000)
@@ -255,6 +395,9 @@ func c09Run(rc *RunCtx) *Violation {
 	if viol != nil {
 		return viol
 	}
+	if v := runProbes(); v != nil {
+		return v
+	}
 	if v := divViolationSoft(rc, o); v != nil {
 		return v
 	}
@@ -269,7 +412,11 @@ func c09Run(rc *RunCtx) *Violation {
 		for _, c := range s.Sess {
 			shown = append(shown, c.Shown...)
 		}
-		for si, c := range s.Sess {
+		for si2, c := range s.Sess {
+			if s.P.Idx < 2 && endedByPeer[s.P.Idx][si2] {
+				continue
+			}
+			si := si2
 			for _, k := range c.Must {
 				must++
 				ok := false
@@ -295,6 +442,8 @@ func c09Run(rc *RunCtx) *Violation {
 	rc.Stats.Sig = fmt.Sprintf("v%d p%d %s", rc.Cfg["version"], rc.Cfg["pattern"], kinds)
 	rc.ProbeN("mac_keys_disclosed", disclosed)
 	rc.ProbeN("refresh_akes", refreshes)
+	rc.ProbeN("forgery_probes", probes)
+	rc.ProbeN("forged_messages", forged)
 	return nil
 }
 
